@@ -125,6 +125,11 @@ func vKARun(role string, silentAt, rtt time.Duration, watch time.Duration, write
 
 // vKARunIn: as vKARun, with data messages arriving from the peer at the moments `inbound` (somebody takes them from the transport)
 func vKARunIn(role string, silentAt, rtt time.Duration, watch time.Duration, inbound []time.Duration, writes ...time.Duration) (torn bool, at time.Duration, conn *vKAConn) {
+	return vKARunX(role, silentAt, rtt, watch, inbound, nil, writes...)
+}
+
+// vKARunX: as vKARunIn; the peer also sends pongs nobody asked for at the moments `extra` (a heartbeat of its own, a duplicated frame)
+func vKARunX(role string, silentAt, rtt time.Duration, watch time.Duration, inbound, extra []time.Duration, writes ...time.Duration) (torn bool, at time.Duration, conn *vKAConn) {
 	conn = &vKAConn{silentAt: silentAt, rtt: rtt, wake: make(chan struct{}, 1), created: time.Now(), inbound: append([]time.Duration(nil), inbound...)}
 	done := make(chan time.Duration, 1)
 	after := func() {
@@ -153,6 +158,21 @@ func vKARunIn(role string, silentAt, rtt time.Duration, watch time.Duration, inb
 	}()
 	// application messages sent at the given moments of the session
 	t0 := time.Now()
+	for _, e := range extra {
+		go func(e time.Duration) {
+			time.Sleep(e - time.Since(t0))
+			conn.mu.Lock()
+			h := conn.pongH
+			ok := !conn.closed && h != nil && conn.started
+			if ok {
+				conn.pongs = append(conn.pongs, time.Since(conn.start))
+			}
+			conn.mu.Unlock()
+			if ok {
+				_ = h("")
+			}
+		}(e)
+	}
 	for _, w := range writes {
 		go func(w time.Duration) {
 			time.Sleep(w - time.Since(t0))
@@ -217,6 +237,29 @@ func TestVerifC17Transport(t *testing.T) {
 				vEmit(c)
 			}(role, silent, rtt)
 		}
+		// a peer which sends pongs nobody asked for (three of them early in the first period) and then falls silent: it is
+		// detected as any other silent peer is - a pong counts from the moment it arrives, not on top of what was granted before
+		wg.Add(1)
+		go func(role string) {
+			defer wg.Done()
+			silent := time.Duration(P * 4 / 10)
+			extra := []time.Duration{time.Duration(P / 10), time.Duration(P * 2 / 10), time.Duration(P * 3 / 10)}
+			torn, at, conn := vKARunX(role, silent, 2*time.Millisecond, silent+time.Duration(W+P)+500*time.Millisecond, nil, extra)
+			conn.mu.Lock()
+			var ps []string
+			for _, p := range conn.pongs {
+				ps = append(ps, vCoqZ(int64(p)))
+			}
+			conn.mu.Unlock()
+			c := vCase{Class: "detect/" + role, Sig: fmt.Sprintf("%s/unsolicited-pongs", role),
+				Info: map[string]interface{}{"role": role, "silent_from_ms": silent.Milliseconds(), "torn_down_at_ms": at.Milliseconds(), "unsolicited_pongs": len(extra), "pongs": len(ps), "outcome": fmt.Sprintf("torn=%v", torn)}}
+			if !torn {
+				c.Fail = "dead-peer-not-detected/after-unsolicited-pongs"
+			} else {
+				c.Coq = fmt.Sprintf("CDetect %s %s %s %s %s", vCoqZ(W), vCoqList(ps), vCoqZ(int64(silent)), vCoqZ(int64(at)), vCoqZ(slack))
+			}
+			vEmit(c)
+		}(role)
 		// healthy idle session over six ping periods
 		wg.Add(1)
 		go func(role string) {
